@@ -42,6 +42,10 @@ struct CtlState {
     passes: HashMap<usize, usize>,
     /// fault plan: (request, gate pass index (0-based), decision)
     faults: Vec<(usize, usize, Decision)>,
+    /// persistent faults: (request, call name) fails before, every time from now on
+    sticky: Vec<(usize, String)>,
+    /// make the faults of the plan persistent for their call name
+    persist: bool,
     free_run: bool,
 }
 
@@ -80,7 +84,13 @@ impl Ctl {
         }
         let mut st = self.m.lock().unwrap();
         let idx = *st.passes.get(&rid).unwrap_or(&0);
-        let planned = st.faults.iter().find(|f| f.0 == rid && f.1 == idx).map(|f| f.2);
+        let mut planned = st.faults.iter().find(|f| f.0 == rid && f.1 == idx).map(|f| f.2);
+        if planned.is_some() && st.persist {
+            st.sticky.push((rid, call.to_string()));
+        }
+        if planned.is_none() && st.sticky.iter().any(|x| x.0 == rid && x.1 == call) {
+            planned = Some(Decision::FailBefore);
+        }
         if !st.free_run {
             st.parked.insert(rid, call.to_string());
             self.cv.notify_all();
@@ -153,6 +163,9 @@ impl Ctl {
     }
     pub fn set_faults(&self, f: Vec<(usize, usize, Decision)>) {
         self.m.lock().unwrap().faults = f;
+    }
+    pub fn set_persist(&self, p: bool) {
+        self.m.lock().unwrap().persist = p;
     }
     pub fn log(&self) -> Vec<(u64, usize, String)> {
         self.m.lock().unwrap().log.clone()
@@ -266,6 +279,8 @@ pub struct RoundSpec {
     pub iofault: Option<(i64, i32, bool, bool)>,
     /// requests executed one after the other once the round is over (same storage)
     pub follow: Vec<Value>,
+    /// trait-level faults stay: every later call of the same name by the request fails too
+    pub persist: bool,
 }
 
 pub struct RoundResult {
@@ -332,6 +347,7 @@ pub fn run_round(spec: &RoundSpec, policy: Policy, faults: Vec<(usize, usize, De
     let inner = seedr.storage.as_ref().unwrap().clone();
     let ctl = Ctl::new();
     ctl.set_faults(faults.clone());
+    ctl.set_persist(spec.persist);
     let dir = seedr.dir.clone();
     // payloads
     let mut toks: Vec<i64> = vec![];
@@ -638,6 +654,7 @@ fn spec_of(j: &Value) -> RoundSpec {
             (f["at"].as_i64().unwrap_or(1), f["errno"].as_i64().unwrap_or(5) as i32, f["persist"].as_bool().unwrap_or(false), f["after"].as_bool().unwrap_or(false))
         }),
         follow: j["follow"].as_array().cloned().unwrap_or_default(),
+        persist: false,
     }
 }
 
@@ -709,6 +726,13 @@ pub fn run(plan_path: &str, out_path: &str) -> anyhow::Result<i32> {
                         run_id += 1;
                         n += 1;
                     }
+                    // the same call keeps failing (an outage, a full disk): the request must still end with an error
+                    spec.persist = true;
+                    let r = run_round(&spec, Policy::Prefix(&[]), vec![(1, k, Decision::FailBefore)], run_id, &scratch)?;
+                    spec.persist = false;
+                    emit(r, json!({"sweep": "trait-persistent", "gate": k}), &mut w)?;
+                    run_id += 1;
+                    n += 1;
                 }
                 if spec.backend == "sqlite" && nio > 0 {
                     let variants: Vec<(i32, bool, bool)> = match j["io_variants"].as_str() {
